@@ -83,7 +83,9 @@ type Node struct {
 	stopped bool  // instance stopped after a tolerated crit (>= 1/3 Byzantine runs)
 	lastOwn int   // last event this node created and accepted (-1)
 
+	resetFrom uint32 // epochs below this one were skipped by a Reset
 	restarts int
+	buildsThisLife int
 	inProcess bool
 }
 
